@@ -221,12 +221,31 @@ example (st en : Nat → Nat) (n : Nat) (x : Nat) (h : 0 < n) :
   have h2 : (Int.ofNat n - 1).toNat = n - 1 := by simp only [Int.ofNat_eq_natCast]; omega
   simp only [rangeOf, h1, ↓reduceIte, h2]
 
-/-
-Stated, not yet proved (kept as comments, listed as `pending` in the evidence):
-
+/-- **The search terminates**: the breadth-first search of `longest_trace` reaches `(n, m)` within
+`n + m + 2` rounds for all lists (completeness of the BFS: while `(n, m)` is unvisited some frontier
+node inside the rectangle has an unvisited successor that is strictly closer to `(n, m)`).  So the
+Rust `loop` (which has no bound and no empty-frontier exit) always returns. -/
 theorem longestTrace_total (old new : List α) :
-    ∃ tr, longestTrace (defaultFuel old new) old new = some tr
-  -- BFS completeness: (n, m) is reachable from the first snake end in ≤ n + m rounds.
--/
+    ∃ tr, longestTrace (defaultFuel old new) old new = some tr := by
+  unfold longestTrace
+  apply bfs_total old new
+  · refine ⟨by simp [hasKey], ?_⟩
+    intro p hp _ _ hnf
+    obtain ⟨t, ht⟩ := hp
+    simp only [List.mem_singleton, Prod.mk.injEq] at ht
+    exact absurd (by simp [ht.1]) hnf
+  · refine ⟨((followSnake old new 0 0 []).1, (followSnake old new 0 0 []).2.1),
+      ⟨(followSnake old new 0 0 []).2.2, by simp⟩, ?_, ?_⟩
+    · have := followSnake_bounds old new 0 0 []
+      exact ⟨this.2.2.1 (Nat.zero_le _), this.2.2.2 (Nat.zero_le _)⟩
+    · simp only [rank, defaultFuel]; omega
+
+/-- **Fuel-free end-to-end statement**: for all lists `list_differ::compute` returns a script, and
+that script turns `old` into `new`. -/
+theorem diff_total_correct (old new : List α) :
+    ∃ s, diff old new = some s ∧ applyScript old s = new := by
+  obtain ⟨tr, htr⟩ := longestTrace_total old new
+  refine ⟨computeWith old new tr, by simp [diff, compute, htr], ?_⟩
+  exact script_correct old new tr (trace_valid _ old new tr htr)
 
 end SamVerif.Differ
